@@ -7,6 +7,7 @@ mention that function on an in-memory overlay.  Prints kill rate per
 property and the survivors (candidates for new rules or equivalent mutants).
 
   /venv/bin/python tools/sweep.py [--props C03,C07] [--limit N] [--out FILE]
+                              [--match substr,substr]
 """
 import ast
 import collections
@@ -175,6 +176,9 @@ def main():
         limit = int(args[args.index('--limit') + 1])
     if '--out' in args:
         out = args[args.index('--out') + 1]
+    only = None
+    if '--match' in args:
+        only = args[args.index('--match') + 1].split(',')
     t0 = time.time()
     jobs = []
     with multiprocessing.Pool(16) as pool:
@@ -187,6 +191,8 @@ def main():
         n = 0
         for q in sorted(qs):
             if q not in prog.funcs:
+                continue
+            if only and not any(o in q for o in only):
                 continue
             for (path, src, desc) in mutants_of(prog, q):
                 jobs.append((p, path, src, desc, bases[p]))
@@ -217,6 +223,10 @@ def main():
     print('TOTAL: %d mutants, %d killed (%.0f%%), %.0fs'
           % (n, tot['killed'], 100.0 * tot['killed'] / max(n, 1),
              time.time() - t0))
+    if only:
+        for p in props:
+            for v, d in surv[p]:
+                print(' ', v, d)
     if out:
         with open(out, 'w') as fh:
             json.dump({p: surv[p] for p in props}, fh, indent=1)
